@@ -23,7 +23,7 @@
    (Gen/RegistryParams.v). *)
 From Coq Require Import NArith List Bool Arith.
 Import ListNotations.
-Require Import SR.Base.Res SR.Gen.RegistryParams.
+Require Import SR.Base.Res SR.Gen.RegistryParams SR.Spec.Lifecycle.
 Open Scope N_scope.
 
 Notation str := (list N) (only parsing).
@@ -66,6 +66,24 @@ Definition open_workbook (r : registry) (suffix : str) : res N * list oev :=
   match reg_get r suffix with
   | Some c => (Ok c, [Construct c])
   | None => (Err NotImplementedError, [])
+  end.
+
+(* what an open gives for a found class / for an absent key *)
+Definition answer (o : option N) : res N * list oev :=
+  match o with
+  | Some c => (Ok c, [Construct c])
+  | None => (Err NotImplementedError, [])
+  end.
+
+(* A history of operations on one registry object (the operation vocabulary [hop] is the
+   specification's): the registry has no state besides suffix_map - open_workbook reads the dict
+   afresh on every call and nothing is remembered between calls - so a registration acts on the
+   dict and an open looks the dict up as it is at that moment.  Result of every open, in order. *)
+Fixpoint run_ops (r : registry) (ops : list hop) : list (res N * list oev) :=
+  match ops with
+  | [] => []
+  | HRegister names c :: t => run_ops (decorate r (names, c)) t
+  | HOpen s :: t => open_workbook r s :: run_ops r t
   end.
 
 (* the module-level registry after importing stingray.workbook and stingray.implementations *)
